@@ -47,3 +47,12 @@ package mr
 //@ func MapReduceVoid
 //@   property C05
 //@   call MapReduce#0: assert sameSlice(arg_opts, opts)
+
+// ForEach builds its options from the caller's and runs the mappers with exactly the worker count they say
+//@ func ForEach
+//@   property C05
+//@   flag private_channels callbacks_noheap
+//@   ghost at after buildOptions#0: o = ret
+//@   call buildOptions#0: assert sameSlice(arg_opts, opts)
+//@   call go#0: assert arg0.workers == o.workers
+//@   loop 0: invariant true
